@@ -100,10 +100,10 @@ structure AllInv (inp : RunInput) (s : Sys) : Prop where
   hU : InvU inp s
   hE : InvE inp s
 
-theorem allInv_serial {inp : RunInput} [NoFailDeliver inp] {s : Sys} (hr : Reach inp s) : AllInv inp s :=
+theorem allInv_serial {inp : RunInput} {s : Sys} (hr : Reach inp s) : AllInv inp s :=
   ⟨reach_inv2 hr, reach_inv3 hr, reach_invG hr, reach_invF hr, reach_invU hr, reach_invE hr⟩
 
-theorem allInv_parallel {inp : RunInput} [NoFailDeliver inp] {s : Sys} (hr : PReach inp s) : AllInv inp s :=
+theorem allInv_parallel {inp : RunInput} {s : Sys} (hr : PReach inp s) : AllInv inp s :=
   ⟨(preach_inv hr).1, (preach_inv hr).2, preach_invG hr, preach_invF hr, preach_invU hr, preach_invE hr⟩
 
 theorem created_of_finished {s : Sys} {d : Name} (h : (stOf s d).finished = true) : created s d := by
